@@ -405,6 +405,29 @@ func natDivCase(c *Ctx, u, v []uint64, tag string) {
 		}
 		poolProblems(c, key())
 	}
+	// the quotient goes into the dividend's own buffer (z.Quo(z, y)), and the remainder too
+	if len(v) > 1 && len(u) >= len(v) {
+		for which := 0; which < 2; which++ {
+			ub := dirtyBuf(len(u) + 6)[:len(u)]
+			copy(ub, toWords(u))
+			var q3, r3 []Word
+			pv, _ := protect(func() {
+				if which == 0 {
+					q3, r3 = decimal.VerifDecDiv(ub, nil, ub, vw)
+				} else {
+					q3, r3 = decimal.VerifDecDiv(nil, ub, ub, vw)
+				}
+			})
+			nm := []string{" quotient-in-dividend-buffer", " remainder-in-dividend-buffer"}[which]
+			if pv != nil {
+				c.Fail(key()+nm, fmt.Sprintf("panic: %v", pv))
+				theAdvPool.takeProblems()
+			} else if !eqWords(q3, qq) || !eqWords(r3, rr) {
+				c.Fail(key()+nm, fmt.Sprintf("q=%s r=%s, with separate buffers q=%s r=%s", wordsKey(fromWords(q3)), wordsKey(fromWords(r3)), wordsKey(qq), wordsKey(rr)))
+			}
+			poolProblems(c, key())
+		}
+	}
 	if c.WantSample() {
 		c.Sample(key())
 	}
